@@ -565,6 +565,9 @@ func Instances() []Instance {
 	add(98, "4rd-map/0-64-addr", func() dhcpv6.Option { return mapRule(p4, 0, AddrA, 0, 8, false) })
 	add(98, "4rd-map/8-32", func() dhcpv6.Option { return mapRule(net.IP{10, 0, 0, 0}, 8, AddrA, 32, 24, true) })
 	add(98, "4rd-map/16-96", func() dhcpv6.Option { return mapRule(net.IP{172, 16, 0, 0}, 16, AddrB, 96, 0xff, false) })
+	// the IPv4 prefix in Go's 16-byte form (net.IPv4 / net.ParseIP results): the same address value
+	add(98, "4rd-map/24-64/ip4-in-16-bytes", func() dhcpv6.Option { return mapRule(net.IPv4(198, 51, 100, 0), 24, AddrA, 64, 8, false) })
+	add(98, "4rd-map/32-128/ip4-in-16-bytes", func() dhcpv6.Option { return mapRule(net.IPv4(100, 64, 0, 238), 32, AddrB, 128, 1, true) })
 	// 99: 4RD non-map rule
 	add(99, "4rd-nonmap/zero", func() dhcpv6.Option { return nonMapRule(false, -1, 0) })
 	add(99, "4rd-nonmap/h", func() dhcpv6.Option { return nonMapRule(true, -1, 1280) })
